@@ -40,7 +40,7 @@ ASSUMPTIONS = [
     'case A oracle uses the position cells of the same result (a WHERE/FROM bug cannot raise a C12 alarm); case B aligns returned rows to the all-postings sequence by the scan index delivered by the harness function verif_rowno',
     'Inventory arithmetic (add_position, reduce) is beancount core and trusted',
 ]
-PROBES = ['ordered_output_resorted', 'same_transaction_object_twice', 'balance_only_as_later_operand', 'aggregate_over_balance_checked', 'equal_consecutive_postings', 'scan_between_balance_refs', 'balance_scan_between_balance_refs', 'nested_scan_died_halfway', 'other_connection_scan',
+PROBES = ['long_ledger_over_128_postings', 'ordered_output_resorted', 'same_transaction_object_twice', 'balance_only_as_later_operand', 'aggregate_over_balance_checked', 'equal_consecutive_postings', 'scan_between_balance_refs', 'balance_scan_between_balance_refs', 'nested_scan_died_halfway', 'other_connection_scan',
           'where_consults_balance', 'from_clause_subject', 'lots_reduced_in_selection', 'in_subquery_touching_balance',
           'three_refs', 'nested_result_checked', 'rider_checked']
 
@@ -62,7 +62,12 @@ NESTED = [
 def generate(rng, tier, run):
     big = tier == 'thorough'
     repeats = rng.random() < 0.3
-    ledger = world.gen_ledger(rng, n_txn=rng.randint(3, 10 if not big else 20), repeats=repeats)
+    ntx = rng.randint(3, 10 if not big else 20)
+    if rng.random() < (0.04 if not big else 0.08):
+        # occasionally a long ledger: anything sized "large enough for every scan in flight" (a bounded memo,
+        # a recycled pool of row contexts) must meet a scan that is larger
+        ntx = rng.randint(60, 90)
+    ledger = world.gen_ledger(rng, n_txn=ntx, repeats=repeats)
     if repeats and rng.random() < 0.6:
         ledger['nometa'] = True
     if rng.random() < 0.15:
@@ -330,6 +335,8 @@ def execute(case, keep_log=False):
                 S.probes['from_clause_subject'] += 1
             if len(sub['refs']) >= 3:
                 S.probes['three_refs'] += 1
+            if len(W['ledger']['dirs']) >= 60:
+                S.probes['long_ledger_over_128_postings'] += 1
             if W['ledger'].get('dupobj'):
                 S.probes['same_transaction_object_twice'] += 1
             if all(r_.startswith('only(') for r_ in sub['refs']):
